@@ -127,6 +127,9 @@ func (c *monC13) After(m *Machine, s *Step) *Violation {
 	}
 	r := s.Resp
 	cfg := m.C.Cfg
+	if ch := m.W.Mail.Changed(); len(ch) > 0 {
+		return violation("C13", "mail-changed-after-handoff", "a mail already handed to the mailer was altered by a later request (a queueing mailer delivers the token to the wrong account): %s", ch[0])
+	}
 	prevSMS := c.sms[b]
 	if n := len(r.SMS); n > 0 {
 		c.sms[b] = &smsSent{code: r.SMS[n-1].Code, number: r.SMS[n-1].Number}
